@@ -42,9 +42,12 @@ fn c05_define_total() {
     unsafe { OUTER_SYMBOLS = outer; }
     kani::cover!(outer == 65534);
     kani::cover!(outer == 65535);
-    // the innermost scope already holds one name (`b`); the ghost count covers the enclosing scopes
+    // the innermost scope already holds one name (`a` or `b`: declaring `a` AGAIN must also claim a fresh slot - the
+    // code compiled between the two declarations keeps using the first one); the ghost count covers the enclosing scopes
+    let first_is_a: bool = kani::any();
+    kani::cover!(first_is_a);
     let mut inner: Vec<String> = Vec::with_capacity(2);
-    inner.push(name_of(false));
+    inner.push(name_of(first_is_a));
     let mut ctx = ManuallyDrop::new(Context { scope: Scope::Local, max_size: 7, symbols: vec![inner] });
     let r = ManuallyDrop::new(ctx.define("a"));
     match &*r {
@@ -52,7 +55,7 @@ fn c05_define_total() {
             // slot == number of names declared before it in the context; the name is appended to the innermost scope
             assert!(outer + 1 <= u16::MAX as usize && s.index as usize == outer + 1 && s.scope == Scope::Local);
             assert!(ctx.symbols.len() == 1 && ctx.symbols[0].len() == 2 && ctx.max_size == 8);
-            assert!(ctx.symbols[0][0].as_bytes() == b"b" && ctx.symbols[0][1].as_bytes() == b"a");
+            assert!(ctx.symbols[0][0].as_bytes() == (if first_is_a { b"a" } else { b"b" }) && ctx.symbols[0][1].as_bytes() == b"a");
         }
         Err(e) => {
             assert!(outer + 1 > u16::MAX as usize);
@@ -178,6 +181,41 @@ fn table_resolve_contract(n_ctx: usize) {
         assert!(r.is_none());
     }
     assert!(t.contexts.len() == n_ctx);
+}
+
+/// O09.1g [bounded twin: the GLOBAL context with two open scopes (program scope + one top-level block) of 0..=1 names
+/// each, and the current function context with one scope of 0..=1 names, names over {a, b}]  a function body sees the
+/// globals of EVERY open global scope, innermost first, at the slot Context::resolve gives them
+#[kani::proof]
+#[kani::unwind(6)]
+fn c09_table_resolve_twin_global_block() {
+    let has: [bool; 3] = kani::any();
+    let is_a: [bool; 3] = kani::any();
+    let mut g_scopes: Vec<Vec<String>> = Vec::with_capacity(2);
+    let mut s0: Vec<String> = Vec::with_capacity(1);
+    if has[0] { s0.push(name_of(is_a[0])); }
+    let mut s1: Vec<String> = Vec::with_capacity(1);
+    if has[1] { s1.push(name_of(is_a[1])); }
+    g_scopes.push(s0);
+    g_scopes.push(s1);
+    let mut contexts: Vec<Context> = Vec::with_capacity(2);
+    contexts.push(Context { scope: Scope::Global, max_size: 0, symbols: g_scopes });
+    contexts.push(ctx_with(Scope::Local, has[2], is_a[2]));
+    let mut t = ManuallyDrop::new(SymbolTable { contexts });
+    let r = t.resolve("a");
+    let in_cur = has[2] && is_a[2];
+    let in_block = has[1] && is_a[1];
+    let in_prog = has[0] && is_a[0];
+    kani::cover!(!in_cur && in_block);
+    if in_cur {
+        assert!(matches!(r, Some(s) if s.index == 0 && s.scope == Scope::Local));
+    } else if in_block {
+        assert!(matches!(r, Some(s) if s.index as usize == (if has[0] { 1 } else { 0 }) && s.scope == Scope::Global));
+    } else if in_prog {
+        assert!(matches!(r, Some(s) if s.index == 0 && s.scope == Scope::Global));
+    } else {
+        assert!(r.is_none());
+    }
 }
 
 // Sequences of define calls (block / function scenarios on the real SymbolTable) were tried as harnesses
